@@ -5,7 +5,7 @@ d=$(readlink -f $1); id=$(basename $d)
 W=/tmp/confirm/$id; rm -rf $W; mkdir -p /tmp/confirm
 git -C /repo worktree add -q --detach $W HEAD || exit 2
 export CARGO_NET_OFFLINE=true CARGO_TARGET_DIR=/verif/.cache/target-confirm
-cd $W
+cd $W; mkdir -p target
 res=""
 if git apply $d/patch.diff 2>/tmp/confirm/$id.applyerr; then res="applies=yes"; else res="applies=NO"; fi
 cp $d/demo.rs tests/seed_demo.rs
